@@ -25,7 +25,8 @@ META = {
     "created once per generate() and shared by all assets, each fraction is written at table[sheet] and the entry advanced by one exactly once per fraction; per asset each "
     "sheet gets at least count(type) rows appended for each of its types; HEADER_ROWS equals the first empty row of the template's header block; the cell under each template "
     "header receives the computed field it names (dates acquired/sold from the lot's / event's own timestamps, proceeds, cost basis, gain, LONG iff the fraction is long-term); "
-    "sheets are removed only after all assets were written and exactly when their counter still equals HEADER_ROWS; the two generators differ only in the tabled constants.",
+    "sheets are removed only after all assets were written and exactly when their counter still equals HEADER_ROWS; the two generators differ only in the tabled constants; "
+    "the filtered gain/loss set the generators iterate applies both window bounds inclusively on the entry's own calendar date; no cell shows a value left over from an earlier row.",
     "not_decided": "the bytes ezodf writes; rendering; that append_rows / sheet deletion behave as documented.",
     "assumptions": ["ezodf Sheet.append_rows(n) adds n rows; del sheets[i] removes sheet i"],
 }
@@ -99,7 +100,11 @@ def run(rep: Report, tier: str) -> None:
         type_to_sheet = fold_module_const(prog, modname, "_TYPE_TO_SHEET")
         sheet_to_types = fold_module_const(prog, modname, "_SHEET_TO_TYPES")
         keep = fold_module_const(prog, modname, "_TEMPLATE_SHEETS_TO_KEEP")
-        if UNKNOWN in (type_to_sheet, sheet_to_types, keep) or any(x is UNKNOWN for x in (type_to_sheet, sheet_to_types, keep)):
+        if type_to_sheet is UNKNOWN and sheet_to_types is not UNKNOWN:
+            # the inverse table is gone (e.g. routing resolved at run time from _SHEET_TO_TYPES): judge routing on the inverse of the sheet->types table
+            type_to_sheet = {t: sheet for sheet, ts in sheet_to_types.items() for t in ts}
+            rep.note(f"{cc}: _TYPE_TO_SHEET is not a module-level constant any more; routing judged on the inverse of _SHEET_TO_TYPES")
+        if any(x is UNKNOWN for x in (type_to_sheet, sheet_to_types, keep)):
             raise AnalysisError(f"{modname}: routing tables are not constant-foldable")
         t2s = {k.member: v for k, v in type_to_sheet.items()}
         # ---- a
@@ -140,6 +145,11 @@ def run(rep: Report, tier: str) -> None:
         _check_generate(rep, rc, re_, m, cc, modname, gen)
         _check_rows(rep, rc, rd, m, cc, modname, gen, sheets)
     _check_siblings(rep, rep.rule("C14.f", "sibling agreement: the US and IE generators differ only in the tabled constants", floor=1), m)
+    # which fractions the generators get to see: the filtered gain/loss set, whose iterator applies the window on the entry's own calendar date
+    from . import c10
+
+    rg = rep.rule("C14.g", "fractions listed are exactly the window's: the entry-set iterator applies both bounds on the entry's own calendar date", floor=2)
+    c10.check_iterator_window(rep, rg, m, "the tax report would list fractions outside the window or drop ones inside it (e.g. a sale on the evening of Dec 31 in a negative-offset time zone)")
 
 
 def _row_index_keys(prog, gen) -> set:
@@ -224,6 +234,9 @@ def _check_rows(rep, rc, rd, m, cc, modname, gen, sheets) -> None:
     init.vars[rows.target.id] = (("sym", "gl"), ("cls", "rp2.gain_loss:GainLoss"))
     init.vars["gain_loss_set"] = (("sym", "gls"), ("cls", "rp2.gain_loss_set:GainLossSet"))
     rep.check(unparse(rows.iter) == "gain_loss_set", rc, modname, f.qualname, f"{cc}: one iteration per fraction of the asset's (window-filtered) gain/loss set", f"{cc.upper()}: the row loop iterates {unparse(rows.iter)}", loc(rows))
+    from ..stale import check_rows_fresh
+
+    check_rows_fresh(rep, rc, norm, f, rows, f"{cc}: tax report rows")
     paths = se.run(rows.body, init)
     spec_ctx = Ctx(modname, gen, None, {"self": (("sym", "self"), ("cls", gen.fq)), "gl": (("sym", "gl"), ("cls", "rp2.gain_loss:GainLoss")), "gls": (("sym", "gls"), ("cls", "rp2.gain_loss_set:GainLossSet")), "asset": (("sym", "asset"), ("prim", "str"))})
 
